@@ -27,6 +27,8 @@ def response(rng, tier):
     for _ in range(rng.range(0, 4)):
         n, v = rng.choice(HDRS)
         hs.append((n, v if v is not None else b"%d" % len(body)))
+        if rng.chance(1, 4):
+            hs.append((rng.choice([n, n.upper(), n.lower()]), hs[-1][1]))      # the same (name, value) pair again: it is relayed again
     form = rng.below(10)
     status = b"HTTP/1.1 " + (b"%d" % code) + b" " + reason
     if form == 0:
